@@ -37,17 +37,15 @@ func NewDatatypeManager(ctx *context.ClientContext, sm *SyncManager) *DatatypeMa
 func (its *DatatypeManager) DeliverTransaction(wired iface.WiredDatatype) {
 	if its.ctx.Client.SyncType == model.SyncType_REALTIME {
 		go func() {
-			if !its.sema.TryAcquire(1) {
-
+			// Wait for the sync in flight instead of giving up: it may belong to another datatype of this client, and
+			// then nobody would push this datatype's operations until something else happens to it.
+			if err := its.sema.Acquire(its.ctx.Ctx(), 1); err != nil {
 				return
 			}
-			defer func() {
-				its.sema.Release(1)
-				if wired.NeedPush() {
-					its.ctx.L().Infof("deliver transaction after delivering")
-					its.DeliverTransaction(wired)
-				}
-			}()
+			defer its.sema.Release(1)
+			if !wired.NeedPush() { // an earlier sync has pushed them already
+				return
+			}
 			if err := its.sync(wired); err != nil {
 				// TODO: handle in ErrorHandler
 			}
